@@ -23,8 +23,7 @@ SqD(L, X, i, j) == DH!SqDist(L, X[i], X[j])
 Diff(X, i, j)   == DM!VSub(X[i], X[j])
 COuter(X, i, j) == LET v == Diff(X, i, j) IN DM!Outer(v, v)
 
-RECURSIVE SumMatSeq(_, _, _)
-SumMatSeq(f, i, d) == IF i > Len(f) THEN DM!ZeroMat(d, d) ELSE DM!MAdd(f[i], SumMatSeq(f, i + 1, d))
+SumMatSeq(f, i, d) == DM!SumMats(f, i, d)           \* (Mat.tla: evaluated eagerly)
 RECURSIVE MinSeqDy(_, _)
 MinSeqDy(v, i) == IF i = Len(v) THEN v[i] ELSE Min(v[i], MinSeqDy(v, i + 1))
 
@@ -67,6 +66,22 @@ MLKRGrad(L, X, P, y) ==
              IF j = i THEN DM!ZeroMat(d, d)
              ELSE DM!MScale(Mul(Mul(Sub(YHat(P, y, i), y[i]), Sub(YHat(P, y, i), y[j])), P[i][j]), COuter(X, i, j))], 1, d)], 1, d)
   IN DM!MScale(FromInt(4), DM!MatMul(L, S))
+
+(* ---- conditioning of the two soft-max gradients --------------------------------------------------------------- *)
+(* The logged soft-max matrix P is only known to 2^-45 absolute per entry (double rounding, verified to that by the   *)
+(* witness check), and near saturation the gradient is a sum of O(1) coefficients times huge outer products that      *)
+(* almost cancels.  The bounds below are the first-order effect of a unit perturbation of every P entry on any entry  *)
+(* of the gradient; 2^-45 times them is added to the comparison tolerance (negligible on well-scaled data).           *)
+PairNorms(X) == DM!Sum([i \in 1..Len(X) |-> DM!Sum([j \in 1..Len(X) |-> IF i = j THEN Zero ELSE DM!Norm2(Diff(X, i, j))])])
+NCAGradCond(L, X) == Mul(Mul(FromInt(2 * (Len(X) + 2)), Sum1M(L)), PairNorms(X))
+MLKRGradCond(L, X, P, y) ==
+  LET n == Len(X)
+      Y == MaxAbsV(y)
+      a(i) == Abs(Sub(YHat(P, y, i), y[i]))
+      b(i, j) == Abs(Sub(YHat(P, y, i), y[j]))
+      t(i, j) == Mul(DM!Norm2(Diff(X, i, j)), Add(Mul(a(i), b(i, j)), Mul(Mul(Add(a(i), b(i, j)), FromInt(n)), Y)))
+  IN Mul(Mul(FromInt(4), Sum1M(L)),
+         DM!Sum([i \in 1..n |-> DM!Sum([j \in 1..n |-> IF i = j THEN Zero ELSE t(i, j)])]))
 
 (* ---- LMNN ---- *)
 InputSqD(X, i, j) == DM!Norm2(Diff(X, i, j))
